@@ -1349,3 +1349,10 @@ pub fn ligate_input(
         }
     }
 }
+
+/// Verification hooks (compiled only with `--cfg rb_verif`).
+#[cfg(rb_verif)]
+#[allow(unused_imports, dead_code, missing_docs)]
+pub mod verif_hooks {
+    use super::*;
+}
